@@ -22,7 +22,7 @@
    refusal inside the maximum"; unconditionally: quotas stay within [0, maximum]; locally: the post-packet block
    releases a held-back message as soon as quota is available. *)
 From MV Require Import Base.Val Session.Pkt Session.Inflight Session.InflightProofs Session.QosSpecs
-  Session.QosProofs Session.QosWitness.
+  Session.QosProofs Session.QosOrder Session.QosLive Session.QosSound Session.QosWitness.
 Open Scope N_scope.
 
 (* unconditional, all histories, all oracles: the counters never leave [0, maximum] *)
@@ -38,6 +38,45 @@ Theorem C11_out_modulo_findings : forall c, cfg_ok c -> forall h s,
   let s' := fst (run c s h) in
   sbal s' /\ ((0 < s_maxsend s')%Z -> (n_f sent_out (s_infl s') <= s_maxsend s')%Z).
 Proof. exact run_sbal. Qed.
+
+(* the property-level corollary, from the start: along every history that avoids the listed accounting defects the
+   stored outbound messages handed to the connection and not yet acknowledged never outnumber the receive maximum *)
+Theorem C11_out : forall c, cfg_ok c -> forall h,
+  hist_ok h -> clean_send c init_st h = true ->
+  let s := fst (run c init_st h) in
+  (0 < s_maxsend s)%Z -> (n_f sent_out (s_infl s) <= s_maxsend s)%Z.
+Proof. exact in_transit_bounded. Qed.
+
+(* liveness over histories: the client acknowledges promptly - a run of PUBACK / PUBCOMP, each ending an outbound flow
+   whose message was handed to the connection, not more of them than messages are waiting behind the limit.  Every
+   acknowledgement releases exactly one held-back message in its own step, the released messages leave in non-decreasing
+   uint16(Created) order, and that many fewer are waiting afterwards; with as many acknowledgements as waiting messages
+   every one of them is transmitted (C11_all_released).  The acknowledgements of the RELEASED messages themselves free
+   nothing (their records are gone): that is KF_C11_send_quota_lost / KF_C09_deferred, see C11_refuted_starved. *)
+Theorem C11_live_modulo_findings : forall c, cfg_ok c -> forall acks s,
+  waiting c s ->
+  (forall o orc, In (o, orc) acks -> op_ok o /\ ends_flow s o) ->
+  NoDup (map (fun x => ack_pid (fst x)) acks) ->
+  (Z.of_nat (length acks) <= n_f marked (s_infl s))%Z ->
+  exists rel,
+    concat (snd (run c s acks)) = map pkt_of_held rel /\
+    length rel = length acks /\
+    (forall k r, In (k, r) rel -> get k (s_infl s) = Some r /\ (r_expiry r < 0)%Z) /\
+    sorted_keys (map (fun kv => key16 (snd kv)) rel) /\
+    waiting c (fst (run c s acks)) /\
+    n_f marked (s_infl (fst (run c s acks))) = (n_f marked (s_infl s) - Z.of_nat (length acks))%Z /\
+    (forall k r, get k (s_infl s) = Some r -> (r_expiry r < 0)%Z ->
+                 In (k, r) rel \/ get k (s_infl (fst (run c s acks))) = Some r).
+Proof. exact release_run. Qed.
+
+Theorem C11_all_released : forall c, cfg_ok c -> forall acks s,
+  waiting c s ->
+  (forall o orc, In (o, orc) acks -> op_ok o /\ ends_flow s o) ->
+  NoDup (map (fun x => ack_pid (fst x)) acks) ->
+  Z.of_nat (length acks) = n_f marked (s_infl s) ->
+  forall k r, get k (s_infl s) = Some r -> (r_expiry r < 0)%Z ->
+  In (OPkt T_PUBLISH k false (r_qos r) (r_uid r) 0) (concat (snd (run c s acks))).
+Proof. exact all_released. Qed.
 
 (* receive side: quota + (stored own QoS 2 exchanges) >= the advertised maximum; so with fewer exchanges stored
    than the maximum the quota is not 0 ... *)
@@ -57,7 +96,7 @@ Theorem C11_accepted_within_quota : forall c s qos p uid now orc,
   end.
 Proof. exact in_publish_accepts. Qed.
 
-(* progress (partial: one step, not a history): with quota available, a connected client and a held-back message,
+(* the one-step form of the release (kept for reference; the history statements are C11_live_modulo_findings above): with quota available, a connected client and a held-back message,
    the post-packet block writes a held-back message, one with the smallest uint16(Created) *)
 Theorem C11_progress_partial : forall c s orc k0 r0,
   wf c s -> s_conn s = true -> (0 < s_sendq s)%Z -> get k0 (s_infl s) = Some r0 -> (r_expiry r0 < 0)%Z ->
@@ -109,6 +148,9 @@ Proof. vm_compute. repeat split; reflexivity. Qed.
 
 Print Assumptions C11_quota_bounds.
 Print Assumptions C11_out_modulo_findings.
+Print Assumptions C11_out.
+Print Assumptions C11_live_modulo_findings.
+Print Assumptions C11_all_released.
 Print Assumptions C11_in_modulo_findings.
 Print Assumptions C11_accepted_within_quota.
 Print Assumptions C11_progress_partial.
